@@ -34,6 +34,13 @@
 (*   step {cache, store, gated}   global quiescence: Peek of every facade,   *)
 (*                                ids waiting at a gate (none: every worker  *)
 (*                                is idle, every abandoned operation done)   *)
+(*   run {k, n, same, v, consulted}   n DoGet of a cached key by one caller,  *)
+(*                                run-length encoded: all n replies are the   *)
+(*                                stored row, the store is never consulted    *)
+(*   exits {rounds, stopped, left}    a batch of tiny life cycles (two Stops at  *)
+(*                                one instant release all parked workers):   *)
+(*                                every group reports its exit, no goroutine *)
+(*                                of the package is left                     *)
 (*   life {what}                  Start / Stop of the group returned.  Calls  *)
 (*                                made before Start wait in the queues; calls *)
 (*                                accepted before Stop are still applied      *)
@@ -164,6 +171,17 @@ TStep(e) ==
   /\ seen' = IF Live = {} THEN e.cache ELSE <<>>
   /\ UNCHANGED <<serial, store, base, tops, pend, open, cursor>>
 
+TRun(e) ==
+  /\ e.k \in 1..NK /\ e.n >= 1
+  /\ PendK(e.k) = {} => (e.same = e.n /\ e.v = store[e.k] /\ e.v # 0 /\ e.consulted = 0)
+  /\ seen' = <<>>
+  /\ UNCHANGED <<serial, store, base, tops, pend, aband, open, cursor>>
+
+TExits(e) ==
+  /\ e.stopped = e.rounds /\ e.left = 0
+  /\ seen' = <<>>
+  /\ UNCHANGED <<serial, store, base, tops, pend, aband, open, cursor>>
+
 TLife(e) ==
   /\ e.what \in {"start", "stop"}
   /\ seen' = <<>>
@@ -186,6 +204,8 @@ TraceNext ==
          [] e.ev = "ret"   -> TRet(e)
          [] e.ev = "step"  -> TStep(e)
          [] e.ev = "life"  -> TLife(e)
+         [] e.ev = "run"   -> TRun(e)
+         [] e.ev = "exits" -> TExits(e)
          [] e.ev = "end"   -> TEnd(e)
          [] OTHER -> FALSE
 
